@@ -176,7 +176,7 @@ def run(O, P):
             if len(parts) != 2 or "\n" in parts[1].strip("\n") or not content.endswith(parts[1]):
                 bad("content does not end with exactly one inline sourceMappingURL trailer (%d found)" % (len(parts) - 1)); continue
             try:
-                mtxt = base64.b64decode(parts[1].strip()).decode("utf-8")
+                mtxt = base64.b64decode(parts[1].strip(), validate=True).decode("utf-8")
                 M = json.loads(mtxt)
             except Exception as e:
                 bad("trailer does not decode: %s" % e); continue
